@@ -592,6 +592,7 @@ def check_types(res, i, tname, mode):
 
 
 SK_CASES = ["duplicate-reordered", "duplicate-same-object", "no-duplicate", "lookalike-dot:\u22c5", "lookalike-dot:\u2219", "lookalike-dot:\u2022", "hydrate-dot:..", "hydrate-dot:\u00b7",
+            "registry:unused-entries",
             "custom-keys:str:one-sided", "custom-keys:200:one-sided", "custom-keys:str:solvable", "custom-keys:200:solvable"]
 
 
@@ -607,7 +608,16 @@ def check_substance_keys(res, which, mode):
     res.transitions += 1
     res.evaluations += 1
     res.nontrivial += 1
-    if which.startswith("custom-keys:"):
+    if which.startswith("registry:"):
+        # the caller's `substances` is a registry holding more entries than the reaction uses (other elements, an ion): they do not take part
+        reg = {k: Substance.from_formula(k) for k in ("H2", "O2", "H2O", "N2", "Fe+3", "NaCl", "Pt")}
+        R, P = (["H2", "O2"], ["H2O"]) if which == "registry:unused-entries" else (["H2", "O2", "Pt"], ["H2O", "Pt"])
+        comp = {k: dict(reg[k].composition) for k in set(R + P)}
+        kw = dict(substances=reg)
+        if which != "registry:unused-entries":
+            kw["allow_duplicates"] = True
+        must_answer = which == "registry:unused-entries" or mode is None
+    elif which.startswith("custom-keys:"):
         # compositions keyed by the caller's own component names (strings, or integers that are no atomic numbers): a component present on
         # one side only is refused with ValueError like any other infeasible placement; a solvable instance is solved
         _, kind, what = which.split(":")
@@ -653,7 +663,10 @@ def check_substance_keys(res, which, mode):
             tot = sum(sympy.sympify(p[s]) * comp[s].get(k, 0) for s in P) - sum(sympy.sympify(r[s]) * comp[s].get(k, 0) for s in R)
             if sympy.expand(tot) != 0:
                 bad = "unbalanced"
-        if bad is None and must_answer and got != (("ok", ["1", "1"], ["1", "1"]) if not which.startswith("custom-keys:") else ("ok", ["1"], ["2"])):
+        if which.startswith("registry:"):
+            if bad is None and must_answer and ([str(r.get(k_)) for k_ in ("H2", "O2")], str(p.get("H2O"))) != (["2", "1"], "2"):
+                bad = "not the unique minimal solution"
+        elif bad is None and must_answer and got != (("ok", ["1", "1"], ["1", "1"]) if not which.startswith("custom-keys:") else ("ok", ["1"], ["2"])):
             bad = "not the unique minimal solution"
     res.outcomes["substance-keys:%s:%s" % (which.split(":")[0], "ok" if bad is None else "WRONG")] += 1
     if bad:
